@@ -300,7 +300,8 @@ def ev_unary(op, node, m):
         return Model(vals, keys, 'no', m.cap_items, m.cap_str, indexable=False, sized=False,
                      unordered=m.unordered, taint=m.taint)
     if op == 'boomset':
-        return m.clone(vals=[lift(lambda v: progs.boomset_model(node['fail'], node['fn'], v), v) for v in m.vals])
+        return m.clone(vals=[lift(lambda v: progs.boomset_model(node['fail'], node['fn'], v, node.get('noargs', False)), v)
+                             for v in m.vals])
     if op == 'predraise':
         return m.clone(vals=[lift(lambda v: progs.predraise_model(node['m'], node['r'], v), v) for v in m.vals])
     if op == 'frag':
